@@ -422,7 +422,7 @@ def f_occ(tier="quick", seed=0):
     def core(nm, d, ex, part, lo, ext, sizes=None):
         out = out_name(ex[0])
         specs.append({"name": "occ/core/" + nm, "decl": d, "exprs": ex, "mapping": {"partitioning": {out: part}, "loop-order": {out: lo}},
-                      "extents": ext, "sizes": sizes or {}, "tags": {"family": "occ", "template": "core", "core": True}})
+                      "extents": ext, "sizes": sizes or {}, "tags": {"family": "occ", "template": "core", "core": True, "legal": True}})
     d4 = {"A": ["K", "M", "N", "O"], "B": ["K", "M", "N", "O"], "Z": []}
     e4 = ["Z[] = A[k, m, n, o] * B[k, m, n, o]"]
     x4 = {"K": 2, "M": 2, "N": 2, "O": 1}
@@ -457,13 +457,13 @@ def f_occ(tier="quick", seed=0):
                   "mapping": {"partitioning": {"Z": {"I": ["uniform_occupancy(T.2)"], "J": ["uniform_occupancy(T.2)"],
                                                      "K": ["uniform_occupancy(T.2)"], "(I0, J0, K0)": ["flatten()"]}},
                               "loop-order": {"Z": ["I1", "K1", "J1", "I0J0K0"]}},
-                  "extents": {"I": 2, "J": 2, "K": 2}, "sizes": {}, "tags": {"family": "occ", "template": "core", "core": True}})
+                  "extents": {"I": 2, "J": 2, "K": 2}, "sizes": {}, "tags": {"family": "occ", "template": "core", "core": True, "legal": True}})
     specs.append({"name": "occ/core/dynflat3-ijk", "decl": {"T": ["I", "J", "K"], "B": ["I", "J", "K"], "Z": []},
                   "exprs": ["Z[] = T[i, j, k] * B[i, j, k]"],
                   "mapping": {"partitioning": {"Z": {"I": ["uniform_occupancy(T.2)"], "J": ["uniform_occupancy(T.2)"],
                                                      "K": ["uniform_occupancy(T.2)"], "(I0, J0, K0)": ["flatten()"]}},
                               "loop-order": {"Z": ["I1", "J1", "K1", "I0J0K0"]}},
-                  "extents": {"I": 2, "J": 2, "K": 2}, "sizes": {}, "tags": {"family": "occ", "template": "core", "core": True}})
+                  "extents": {"I": 2, "J": 2, "K": 2}, "sizes": {}, "tags": {"family": "occ", "template": "core", "core": True, "legal": True}})
     core("flat-first-then-occ", {"A": ["K", "M", "N"], "B": ["K", "M", "N"], "Z": ["N"]}, ["Z[n] = A[k, m, n] * B[k, m, n]"],
          {"(K, M)": ["flatten()"], "KM": ["uniform_occupancy(A.3)"]}, ["KM1", "KM0", "N"], {"K": 2, "M": 2, "N": 2})
     # accelerator mappings with architecture stripped, sizes scaled to the extents
